@@ -1,8 +1,17 @@
 #!/bin/sh
 # Offline setup: install the runtime-contract libraries beside the repository's interpreter.
+# Safe when several checks start at once on a fresh checkout: the packages are installed into a private directory and
+# renamed into place in one step, so no check ever imports from a half-written .deps.
 cd "$(dirname "$0")"
-if [ ! -d .deps/icontract ]; then
-  /venv/bin/pip install -q --no-index --find-links /opt/veriftools/wheels --target .deps icontract deal >/dev/null 2>&1 || echo "setup: icontract/deal not installed (checks fall back to plain wrappers)"
-fi
 mkdir -p .work evidence replay
+if [ ! -d .deps/icontract ]; then
+  tmp=".deps.tmp.$$"
+  rm -rf "$tmp"
+  if /venv/bin/pip install -q --no-index --find-links /opt/veriftools/wheels --target "$tmp" icontract deal >/dev/null 2>&1; then
+    mv -T "$tmp" .deps 2>/dev/null || rm -rf "$tmp"      # somebody else was first: theirs is complete too
+  else
+    rm -rf "$tmp"
+    echo "setup: icontract/deal not installed (checks fall back to plain wrappers)"
+  fi
+fi
 exit 0
